@@ -270,6 +270,14 @@ class Evaluator:
 EffectFn = Callable[[Node, Evaluator], List[Any]]
 
 
+def _hashable(v: Any) -> Any:
+    try:
+        hash(v)
+        return v
+    except TypeError:
+        return repr(v)
+
+
 def run_paths(
     prog: Program,
     module: Module,
@@ -327,7 +335,7 @@ def run_paths(
             new_eff.extend(effect_fn(node, evl))
             rv = node.ast.value  # type: ignore[attr-defined]
             val = evl.ev(rv) if rv is not None else None
-            new_eff.append(('ret', 'UNKNOWN' if val is UNKNOWN else val))
+            new_eff.append(('ret', 'UNKNOWN' if val is UNKNOWN else _hashable(val)))
         elif node.kind == 'raise':
             new_eff.extend(effect_fn(node, evl))
             ex = node.ast.exc  # type: ignore[attr-defined]
